@@ -40,3 +40,21 @@ Theorem c14_route_non_post : forall s name http, bytes_eqb http s_post = false -
   route_name KHttp http s name = VL [VN 12; VN 405].
 Proof. exact route_non_post. Qed.
 Print Assumptions c14_route_non_post.
+
+(* ---- ownership over histories (routing.ServiceRouter) ---- *)
+From GB Require Import Proofs.RoutersProofs Proofs.SvcTableProofs.
+
+(* the earlier claimant keeps the service: after ANY history, no operation of ANOTHER target (its updates - whatever
+   they list - or its removal) changes the route of a service *)
+Theorem c14_earlier_claimant_keeps : forall valid ops o svc r, probe_grpc (run_ops valid ops) svc = Some r ->
+  ~ touches o (sr_target r) -> probe_grpc (fst (step valid (run_ops valid ops) o)) svc = Some r.
+Proof. exact earlier_claimant_keeps. Qed.
+Print Assumptions c14_earlier_claimant_keeps.
+
+(* the owner keeps it across its own updates as long as it lists the service; the route then carries the new description *)
+Theorem c14_owner_relists : forall valid ops n d svc r, probe_grpc (run_ops valid ops) svc = Some r -> sr_target r = n ->
+  lists_svc d svc = true -> snd (step valid (run_ops valid ops) (OUpdate n d)) = 1 ->
+  exists r' s, probe_grpc (fst (step valid (run_ops valid ops) (OUpdate n d))) svc = Some r' /\
+               sr_target r' = n /\ sr_desc r' = d_id d /\ nth_error (d_services d) (sr_idx r') = Some s /\ s_name s = svc.
+Proof. exact owner_relists. Qed.
+Print Assumptions c14_owner_relists.
